@@ -41,8 +41,9 @@ RULE = ("histories of 0-12 operations over 2-4 shared operands (results are reus
 ASSUMPTIONS = [
     "scalars are Python int/float (numpy integer/float32 scalars and bool are dispatched by numpy/Python coercion rules and are not modelled)",
     "ordinates of exact landscapes are floats (str * int would repeat the string instead of raising)",
-    "grid landscapes have a float `values` array of shape (depths, num_steps); the constructor's string placeholder "
-    "array(['empty']) (printed as 'Bad choice of grid') is outside the model and is not generated",
+    "grid landscapes have a float `values` array of shape (depths, num_steps); a diagram none of whose bars is visible on the "
+    "grid gives one zero row (generated on purpose: bars shorter than a step); a non-numeric `values` from the constructor "
+    "(the former string placeholder array(['empty'])) is reported as a violation with the arithmetic law that fails on it",
     "lc_approx on an empty product list returns the numpy scalar 0 rather than a landscape; the model calls that notLandscape "
     "(an empty landscape list together with non-numeric coefficients is numpy dtype resolution on empty arrays and is not generated)",
     "np.interp / np.linspace behave as the model's interp/linspace in exact arithmetic (compared on every snap)",
@@ -548,10 +549,22 @@ def gen_vals_leaf(ctx, mode, e, hom_deg, grid, exact):
             "values": [[v() for _ in range(n)] for _ in range(k)]}
 
 
-def gen_gdgm_leaf(ctx, mode, e, hom_deg, grid):
+def gen_gdgm_leaf(ctx, mode, e, hom_deg, grid, short=False):
+    """a grid landscape built by the real constructor from diagrams.  `short`: every bar of the selected degree is shorter
+    than a grid step, so no bar is visible on the grid and the landscape is the zero function with ONE zero row
+    (/repo fix 357d745; before it `values` was the string placeholder ['empty'] and arithmetic on it raised)"""
+    r = ctx.rng
     s, t, n = grid
+    n = max(n, 3)
     dgms = [gen_bars(ctx, mode, e, diag_p=0.0), gen_bars(ctx, mode, e, diag_p=0.0)]
-    return {"kind": "gdgm", "dgms": dgms, "hom_deg": hom_deg, "start": s, "stop": t, "num_steps": max(n, 3)}
+    if short:
+        step = (t - s) / (n - 1)
+        bars = []
+        for _ in range(r.randint(1, 4)):
+            b = s + r.randint(0, 4 * (n - 1) - 3) * step / 4.0
+            bars.append([b, b + r.choice([0.25, 0.5, 0.75]) * step])
+        dgms[hom_deg] = bars
+    return {"kind": "gdgm", "dgms": dgms, "hom_deg": hom_deg, "start": s, "stop": t, "num_steps": n}
 
 
 def gen_grid_history(ctx):
@@ -574,17 +587,9 @@ def gen_grid_history(ctx):
             grid = (grid[0], g1[1] if which[1] and g1[1] >= grid[0] else t, g1[2] if which[2] else n)
         spec = None
         if r.random() < 0.35 and grid[1] > grid[0]:
-            for _ in range(4):      # the constructor's 'Bad choice of grid' placeholder is not a landscape: draw again
-                cand = gen_gdgm_leaf(ctx, mode, e, hd, grid)
-                try:
-                    with np.errstate(all="ignore"):
-                        ok = np.asarray(build_leaf(cand).values).dtype.kind == "f"
-                except Exception:
-                    ok = False
-                if ok:
-                    spec = cand
-                    break
-                ctx.count("gen:grid_placeholder_redrawn")
+            # nothing is redrawn: a grid on which no bar is visible gives the zero function (one zero row) and takes part
+            # in the history like every other landscape
+            spec = gen_gdgm_leaf(ctx, mode, e, hd, grid, short=r.random() < 0.3)
         leaves.append(spec or gen_vals_leaf(ctx, mode, e, hd, grid, exact))
     nops = r.randint(0, 12)
     ops = []
@@ -655,6 +660,7 @@ def run_history(hist, ctx=None):
             return run
         for pl in run.regs:
             if not is_exact(pl) and np.asarray(pl.values).dtype.kind != "f":
+                # not a landscape the arithmetic can be run on; `run` reports it (placeholder_violation)
                 run.leaf_error = "placeholder-values"
                 return run
         first = [snapshot(p) for p in run.regs]
@@ -1039,6 +1045,47 @@ def check_laws(ctx, run):
     return fails
 
 
+def placeholder_violation(ctx, hist):
+    """A grid landscape built by the real constructor from a diagram has non-numeric `values` (the string placeholder
+    ['empty'] of the code before /repo 357d745, when no bar is visible on the grid).  Such a landscape is the zero function;
+    the statement's laws are evaluated on it: P + Q = Q, 2 * P = 0, snap_pl([P]) = 0.  Reports the first law that fails."""
+    E, A, tl = _mods()
+    for spec in hist["leaves"]:
+        if spec["kind"] != "gdgm":
+            continue
+        with contextlib.redirect_stdout(io.StringIO()), np.errstate(all="ignore"):
+            P = build_leaf(spec)
+            if np.asarray(P.values).dtype.kind == "f":
+                continue
+            n = int(P.num_steps)
+            ones = {"kind": "vals", "start": float(P.start), "stop": float(P.stop), "num_steps": n, "hom_deg": int(P.hom_deg),
+                    "values": [[1.0] * n]}
+            Q = build_leaf(ones)
+            probes = [("P + Q (Q = the constant sample vector 1 on the same grid)", lambda: (P + Q).values, [[1.0] * n]),
+                      ("Q - P", lambda: (Q - P).values, [[1.0] * n]),
+                      ("2 * P", lambda: (2 * P).values, [[0.0] * n]),
+                      ("snap_pl([P])", lambda: tl.snap_pl([P])[0].values, [[0.0] * n])]
+            failure = None
+            for what, thunk, want in probes:
+                try:
+                    got = np.asarray(thunk())
+                    if got.dtype.kind != "f" or got.tolist() != want:
+                        failure = "%s = %r instead of %r" % (what, got.tolist(), want)
+                except Exception as e:
+                    failure = "%s raised %s" % (what, errtag(e))
+                if failure:
+                    break
+        ctx.test("grid_landscape_without_visible_bar_is_zero_function", failure is None)
+        h2 = {"cls": "grid", "mode": hist["mode"], "exact": hist["exact"], "leaves": [spec, ones],
+              "ops": [["add", 0, 1], ["sub", 1, 0], ["rmul", 0, 2], ["snap", [0], None, None, None]]}
+        ctx.violation("a grid landscape whose bars are all invisible on the grid (values = %r) does not behave as the zero "
+                      "function: %s" % (np.asarray(P.values).tolist(), failure or "values is not a float array"),
+                      {"history": jsonable_hist(h2), "failure": {"law": "zero function with one zero row", "op_index": 0,
+                                                                 "values": np.asarray(P.values).tolist(), "probe": failure}},
+                      found_input=True, reproducer=reproducer(h2))
+        return
+
+
 def reproducer(hist, upto=None):
     return ("from harness.props import c09; run = c09.run_history(%r); print(run.outcomes, run.untouched)"
             % ({"cls": hist["cls"], "mode": hist["mode"], "exact": hist["exact"], "leaves": hist["leaves"],
@@ -1277,6 +1324,10 @@ def run(ctx):
             runx = run_history(hist)
         if runx.leaf_error is not None:
             ctx.count("leaf_rejected:" + runx.leaf_error)
+            if runx.leaf_error == "placeholder-values":
+                placeholder_violation(ctx, hist)
+                if len(ctx.violations) > 5:
+                    break
             continue
         nontrivial = any(o[0] == "ok" and op[0] in ("add", "sub", "snap", "lc", "avg") for op, o in zip(runx.ops, runx.outcomes))
         ctx.case({"cls": hist["cls"], "leaves": hist["leaves"], "ops": runx.ops}, nontrivial, sample_every=61)
@@ -1287,6 +1338,14 @@ def run(ctx):
             ctx.count("result_shares_operand_depth_lists", runx.shared)
         if hist["cls"] == "exact":
             classify_leaves(ctx, runx)
+        else:
+            for spec, pl in zip(hist["leaves"], runx.regs):
+                if spec["kind"] == "gdgm":
+                    v = np.asarray(pl.values)
+                    zero_row = v.shape[0] == 1 and not v.any()
+                    ctx.count("leaf:grid_from_diagram:" + ("one_zero_row(no visible bar)" if zero_row else "visible_bars"))
+                    if zero_row:
+                        ctx.test("grid_landscape_without_visible_bar_is_zero_function", True)
         if not runx.untouched:
             ctx.violation("an operand changed during operation %s of a %s history (byte comparison of every live landscape "
                           "before/after each operation and of the leaves at the end)" % (runx.touched_at, hist["cls"]),
@@ -1353,6 +1412,10 @@ def replay(ctx, rep):
     runx = run_history(hist)
     print("outcomes:", [o[0] if o[0] == "ok" else o[1] for o in runx.outcomes])
     print("operands untouched:", runx.untouched)
+    if runx.leaf_error == "placeholder-values":
+        print("a grid landscape built from a diagram has non-numeric values (no bar visible on the grid): "
+              "it must be the zero function with one zero row")
+        return False
     if runx.leaf_error is not None:
         print("leaf rejected by the constructor:", runx.leaf_error)
         return True
